@@ -91,7 +91,10 @@ pub fn cases(o: &mut Outcome, rng: &mut Rng, thorough: bool) {
     parts::tuple_cases(o, thorough);
     parts::paren_cases(o, thorough);
     parts::vis_extern_cases(o);
-    let _ = rng;
+    parts::attr_cases(o, rng, thorough);
+    parts::match_cases(o);
+    parts::block_cases(o);
+    parts::lex_cases(o, rng, thorough);
 }
 
 /// `rfverif optin`: the standalone run of this module.
